@@ -117,6 +117,24 @@ CHECKS = {
             {"run": "^TestC07BackendModel$", "n": {"quick": 20000, "thorough": 150000}},
         ],
     },
+    "C08": {
+        "level": "exploration",
+        "technique": "generated concurrent client programs run free (clock frozen per phase in a synctest bubble); histories checked with porcupine against a nondeterministic per-key model, plus Walk exact-once invariants",
+        "design_ref": "DESIGN.md section 6 C08",
+        "text": "Programs of 2-8 goroutines x 2-8 operations per phase over 2-5 slots (one slot is a constructed hash-colliding "
+                "key pair on hash-indexed backends) are generated; every operation records call/return stamps from one atomic "
+                "counter. The per-slot histories must be linearizable w.r.t. a model in which batch operations act on each key "
+                "at one instant within their call, cleanup/eviction may or may not remove an entry and every Walk callback is an "
+                "observation. Walk must not visit a key twice, report only stored values, and visit / omit keys whose state is "
+                "determined. Verdicts cover the histories that actually executed.",
+        "note": "The Go scheduler picks the interleavings (16 cores, spin hints); the measured class 'overlapping-mutation' "
+                "says how many histories had real overlap. At E == now (frozen clock) both fresh and expired are accepted; the "
+                "strict boundary is C07/C10's.",
+        "assumptions": ["porcupine v1.3.0 linearizability checker", "clock frozen within a phase"],
+        "jobs": [
+            {"run": "^TestC08Linearizable$", "n": {"quick": 12000, "thorough": 60000}},
+        ],
+    },
     "C09": {
         "level": "exploration",
         "technique": "model-based stateful property testing over algebraically constructed xxhash64 collisions; poison-after-use key buffers",
